@@ -53,6 +53,7 @@ VARIANTS = {
   fault('image-title-conditional', F(ST, 'Image.__init__', '            self.title = EscapeSequence.strip(match.group(3))\n', "            if match.group(3):\n                self.title = EscapeSequence.strip(match.group(3))\n"), 'R-RENDER-TOTAL'),
  ],
  'C03': [
+  fault('quote-keeps-list-tightness', F(HR, 'HtmlRenderer.render_quote', "        self._suppress_ptag_stack.append(False)\n        elements.extend([self.render(child) for child in token.children])\n        self._suppress_ptag_stack.pop()\n", "        elements.extend([self.render(child) for child in token.children])\n"), 'R-TIGHT-HTML'),
   fault('closing-fence-exact-length', F(BT, 'CodeFence.read', "                    and not stripped_line.rstrip().strip(cls._open_info[1][0])\n", "                    and stripped_line.rstrip() == cls._open_info[1]\n"), 'R-FENCE-CLOSE'),
   fault('closing-fence-indent-three', F(BT, 'CodeFence.read', "                    and diff < 4):", "                    and diff < 3):"), 'R-FENCE-CLOSE'),
   fault('last-item-loose-by-trailing-blank', F(BT, 'List.read', 'last_parse_buffer.loose = len(last_parse_buffer) > 1 and last_parse_buffer.loose', 'last_parse_buffer.loose = len(last_parse_buffer) > 0 and last_parse_buffer.loose'), 'R-LAST-ITEM-LOOSE'),
@@ -162,6 +163,8 @@ VARIANTS = {
  ],
  'C10': [
   fault('setext-underline-clipped', F(MR, 'MarkdownRenderer.render_setext_heading', 'yield token.underline', 'yield token.underline[:max_line_length]'), 'R-BUDGET'),
+  fault('quote-strips-line-ends', F(MR, 'MarkdownRenderer.render_quote', 'return self.prefix_lines(lines or [""], "> ")', 'return [line.rstrip() for line in self.prefix_lines(lines or [""], "> ")]'), 'R-LINES-INTACT'),
+  fault('no-limit-falls-back-to-setting', F(MR, 'MarkdownRenderer.span_to_lines', "        fragments = self.make_fragments(tokens)\n", "        if max_line_length is None:\n            max_line_length = self.max_line_length\n        fragments = self.make_fragments(tokens)\n"), 'R-NONE-STAYS-NONE'),
   fault('quote-budget-off-by-one', F(MR, 'MarkdownRenderer.render_quote', 'max_line_length - 2 if', 'max_line_length - 1 if'), 'R-BUDGET'),
   fault('list-budget-ignores-prefix', F(MR, 'MarkdownRenderer.render_list_item', 'max_line_length - prepend if', 'max_line_length - indentation if'), 'R-BUDGET'),
   fault('budget-truthiness', F(MR, 'MarkdownRenderer.render_quote', 'if max_line_length is not None else None', 'if max_line_length else None'), 'R-SENTINEL'),
@@ -240,6 +243,7 @@ VARIANTS = {
  ],
  'C16': [
   fault('tie-goes-to-later', F(SK, 'eval_tokens', 'return x if x.cls.precedence >= y.cls.precedence else y', 'return x if x.cls.precedence > y.cls.precedence else y'), 'R-EVAL'),
+  fault('loser-hands-children-on', F(SK, 'eval_tokens', 'return x if x.cls.precedence >= y.cls.precedence else y', 'return x if x.cls.precedence >= y.cls.precedence else (token_buffer.extend(x.children) or y)'), 'R-EVAL'),
   fault('relation-strict', F(SK, 'relation', "    if x.end <= y.start:\n        return 0", "    if x.end < y.start:\n        return 0"), 'R-RELATION'),
   fault('contain-needs-strict-inside', F(SK, 'relation', 'if x.parse_start <= y.start and x.parse_end >= y.end:', 'if x.parse_start < y.start and x.parse_end >= y.end:'), 'R-RELATION'),
   fault('lt-compares-end', F(SK, 'ParseToken.__lt__', 'return self.start < other.start', 'return (self.start, self.end) < (other.start, other.end)'), 'R-ORDER'),
@@ -251,6 +255,7 @@ VARIANTS = {
   fault('nest-ignores-parse_inner', F(SK, 'ParseToken.append_child', "        if self.cls.parse_inner:\n            if not self.children:", "        if True:\n            if not self.children:"), 'R-EVAL'),
  ],
  'C17': [
+  fault('math-closing-delimiter-free', S('mistletoe/latex_token.py', "pattern = re.compile(r'(\\${1,2})([^$]+?)\\1')", "pattern = re.compile(r'\\${1,2}[^$]+?\\${1,2}')"), 'R-TEX-MATH'),
   fault('math-pattern-takes-backslashes', S('mistletoe/latex_token.py', "pattern = re.compile(r'(\\${1,2})([^$]+?)\\1')", "pattern = re.compile(r'(?:\\\\\\\\)*(\\${1,2})([^$]+?)\\1')"), 'R-TEX-MATH'),
   fault('backslash-unescaped', S(LR, "    '\\\\': '\\\\textbackslash{}',\n", ''), 'R-TEX-SANITISER'),
   fault('percent-unescaped-in-url', F(LR, 'LaTeXRenderer.escape_url', "return quoted_url.replace('%', '\\\\%') \\\n                         .replace('#', '\\\\#')", "return quoted_url.replace('#', '\\\\#')"), 'R-TEX-SANITISER'),
